@@ -115,6 +115,8 @@ func checkC04(r *Run) {
 		if c := r.oneCall("C04-R1", "removeValidatorTokens", f, posK+"SetValidator"); c != nil {
 			got := argTerm(P.callTerm(c), 2).String()
 			r.Check(got == vT+"RemoveStakedTokens(param:v, param:tokensToRemove)", "C04-R1", "removeValidatorTokens/persists", P.InstrPos(c), got, "persists "+got)
+			reach, _, path := ReachWithout(f, nil, isReturn, func(in ssa.Instruction) bool { return in == ssa.Instruction(c) }, nil)
+			r.Check(!reach, "C04-R1", "removeValidatorTokens/always-persists", P.InstrPos(c), "the reduced record is stored on every path", "a path returns the reduced validator without storing it (the pool is burned by the caller regardless): "+P.blockPathString(path))
 		}
 		for _, ret := range Returns(f) {
 			got := P.TermAt(ret.Results[0], ret).String()
